@@ -322,6 +322,8 @@ def main() -> int:
             if len(samples) < 8:
                 samples.append(s)
         for k, v in r.extra.items():
+            if k == "enum_complete":
+                continue
             if isinstance(v, (int, float)) and not isinstance(v, bool):
                 extra[k] = extra.get(k, 0) + v
             else:
@@ -392,7 +394,14 @@ def main() -> int:
     note = getattr(mod, "EXHAUSTIVE_NOTE", None)
     if note:
         cov["exhaustive_subspace"] = note[tier] if isinstance(note, dict) else note
-        cov["exhaustive"] = bool(getattr(mod, "EXHAUSTIVE", False)) and not cov["budget_exhausted"]
+        # a module may report per shard that its enumerated part completed (extra["enum_complete"]); then a budget
+        # cut in a later sampled phase does not invalidate the exhaustiveness of the enumerated sub-space
+        flags = [r.extra.get("enum_complete") for r in results]
+        if all(f is not None for f in flags):
+            complete = all(bool(f) for f in flags)
+        else:
+            complete = not cov["budget_exhausted"]
+        cov["exhaustive"] = bool(getattr(mod, "EXHAUSTIVE", False)) and complete
     ev.write(prop_id, tier, seed, getattr(mod, "LEVEL", "exploration"), cov, list(mod.ASSUMPTIONS), wall, len(violations))
     print(
         f"{prop_id} tier={tier} seed={seed}: evaluations={evaluations} distinct_nontrivial={n_nontrivial} "
